@@ -148,6 +148,7 @@ func (b *prefixBatch) Put(key, value []byte) error {
 }
 
 func (b *prefixBatch) Write() error {
+	verifBeforeWrite("batch", []byte(b.prefix))
 	return b.db.Write(b.b, nil)
 }
 
